@@ -646,6 +646,10 @@ def decode_pub(s, m):
 def c05_gen(rng):
     m = gen.gen_model(rng, custom=False)
     t = gen.gen_tree(rng, wf=True, max_nodes=10, strict=maybe(rng, 0.8))
+    if maybe(rng, 0.1):
+        # role suffixes in digits of other scripts (oracle only, see gen.ROLES_UNICODE_DIGITS)
+        var, bs = t
+        t = (var, list(bs) + [(r, 'k%d' % i) for i, r in enumerate(rng.sample(gen.ROLES_UNICODE_DIGITS, 3))])
     return {'tree': j_node(t), 'model': m, 'key': rng.choice(gen.KEYS), 'af': maybe(rng, 0.5),
             'seed': rng.randint(0, 10**6), 'random': maybe(rng, 0.15)}
 
@@ -658,7 +662,7 @@ def indep_key(m, names):
 
     def alnum(r):
         i = len(r)
-        while i > 0 and r[i - 1] in '0123456789':     # ASCII digits only in generated roles
+        while i > 0 and r[i - 1].isdecimal():     # decimal digits of any script (what \d and int() accept)
             i -= 1
         if i == len(r) or i == 0:
             return (r, 0)
@@ -2169,7 +2173,11 @@ def c20_check(case, known=None):
 
 def c17_gen(rng):
     spec = rng.choice(['default', 'amr'])
-    g = gen.gen_graph(rng, spec, mode=rng.choice(['decoded', 'hand', 'corrupt']))
+    g = gen.gen_graph(rng, spec, mode=rng.choice(['decoded', 'hand', 'corrupt', 'hand-disc']))
+    if maybe(rng, 0.15):
+        # several disconnected nodes whose names tie under the alphanumeric key (b, b0; c1, c01)
+        g = Graph(list(g.triples) + [(v, ':instance', 'x') for v in rng.sample(['b0', 'b00', 'c1', 'c01', 'c001', 'zz', 'zz0'], 4)],
+                  top=g._top, epidata=dict(g.epidata))
     h = gen.gen_graph(rng, spec, mode='decoded')
     return {'g': j_graph(g), 'h': j_graph(h), 'model': spec, 'text': gen.gen_penman_string(rng)}
 
@@ -2199,6 +2207,8 @@ def c17_calls(g, h, m, text):
         ('reify_attributes', [g], lambda: snap(transform.reify_attributes(g))),
         ('indicate_branches', [g], lambda: snap(transform.indicate_branches(g, m))),
         ('canonicalize_roles', [t], lambda: snap(transform.canonicalize_roles(t, m))),
+        # the canonicalised tree is a new tree: re-arranging IT in place leaves the argument alone
+        ('canonicalize_then_rearrange', [t], lambda: snap(_rearranged(transform.canonicalize_roles(t, m), m))),
         ('or', [g, h], lambda: snap(g | h)),
         ('sub', [g, h], lambda: snap(g - h)),
         ('queries', [g], lambda: repr((g.instances(), g.edges(), g.attributes(), sorted(g.variables(), key=repr), g.reentrancies()))),
@@ -2215,6 +2225,11 @@ def c17_calls(g, h, m, text):
                                             {'reconfigure': ['canonical'], 'reifyEdges': True})])),
     ]
     return calls
+
+
+def _rearranged(t2, m):
+    layout.rearrange(t2, key=m.canonical_order, attributes_first=True)
+    return t2
 
 
 def _amr_from_dict_choices():
